@@ -91,6 +91,7 @@ theorem pres_evalStep (env : Env) (hc :  b, Pres (env.call b)) : (a : Ast) 
     intro st
     split
     路 exact pres_pure _
+    路 exact pres_pure _
     路 exact pres_bind (pres_lift _) (fun _ => pres_bind (pres_forLoop hb _ _) (fun _ => pres_pure _))
   | .every (.quantifiedContexts items) (.satisfies body) => by
     have hb := pres_evalStep env hc body
@@ -144,6 +145,7 @@ theorem pres_evalStep (env : Env) (hc :  b, Pres (env.call b)) : (a : Ast) 
       apply pres_bind (pres_evalIteration env hc _ 0)
       intro st
       split
+      路 exact pres_pure _
       路 exact pres_pure _
       路 exact pres_bind (pres_lift _) (fun _ => pres_bind (pres_forLoop hb _ _) (fun _ => pres_pure _))
     路 exact pres_bind (pres_lift _) (fun _ => pres_bind (pres_forLoop hb _ _) (fun _ => pres_pure _))
@@ -232,8 +234,10 @@ theorem pres_evalIteration (env : Env) (hc :  b, Pres (env.call b)) :
     路 exact pres_bind (pres_evalIteration env hc items _) (fun _ => pres_pure _)
   | .iterationContextRange (.name n) lo hi :: items, pos => by
     simp only [evalIteration]
-    exact pres_bind (pres_evalStep env hc lo) (fun _ => pres_bind (pres_evalStep env hc hi)
-      (fun _ => pres_bind (pres_evalIteration env hc items _) (fun _ => pres_pure _)))
+    refine pres_bind (pres_evalStep env hc lo) (fun _ => pres_bind (pres_evalStep env hc hi) (fun _ => ?_))
+    split
+    路 exact pres_pure _
+    路 exact pres_bind (pres_evalIteration env hc items _) (fun _ => pres_pure _)
   | item :: items, pos => by
     have ih := pres_evalIteration env hc items (pos + 1)
     unfold evalIteration
@@ -245,8 +249,10 @@ theorem pres_evalIteration (env : Env) (hc :  b, Pres (env.call b)) :
       路 exact pres_pure _
       路 exact pres_bind ih (fun _ => pres_pure _)
     路 rename_i n lo hi
-      exact pres_bind (pres_evalStep env hc lo) (fun _ => pres_bind (pres_evalStep env hc hi)
-        (fun _ => pres_bind ih (fun _ => pres_pure _)))
+      refine pres_bind (pres_evalStep env hc lo) (fun _ => pres_bind (pres_evalStep env hc hi) (fun _ => ?_))
+      split
+      路 exact pres_pure _
+      路 exact pres_bind ih (fun _ => pres_pure _)
     路 exact ih
 end
 
